@@ -20,7 +20,10 @@ func runProcs(t *testing.T, prop string, n int, check func(tb TB, i int)) {
 	ct := &collectTB{}
 	old := runtime.GOMAXPROCS(0)
 	defer runtime.GOMAXPROCS(old)
-	for procs := 1; procs <= 12 && !ct.Failed(); procs++ {
+	for _, procs := range []int{1, 2, 3, 4, 5, 6, 7, 8, 9, 10, 11, 12, 16, 17, 24, 32, 48, 64, 100} {
+		if ct.Failed() {
+			break
+		}
 		runtime.GOMAXPROCS(procs)
 		parallelFor(n, 8, func(i int) {
 			if ct.Failed() {
@@ -34,7 +37,7 @@ func runProcs(t *testing.T, prop string, n int, check func(tb TB, i int)) {
 		st.NonTrivialN(int64(n))
 		st.Class(fmt.Sprintf("GOMAXPROCS %d", procs))
 	}
-	st.Set("exhaustive_domain", fmt.Sprintf("%d multi-block symbols x GOMAXPROCS 1..12", n))
+	st.Set("exhaustive_domain", fmt.Sprintf("%d multi-block symbols x GOMAXPROCS 1..12, 16, 17, 24, 32, 48, 64, 100", n))
 	if ct.Failed() {
 		t.Fatalf("%s (GOMAXPROCS was %d)", ct.first, runtime.GOMAXPROCS(0))
 	}
